@@ -303,7 +303,7 @@ pub fn replay(case: &Value) -> Result<String, String> {
 pub fn plan(tier: Tier) -> Plan {
     let mut p = Plan::new("C05", "model_checking");
     let thorough = tier.thorough();
-    p.rule = "every k-tuple (k=1..4) of subsets of U4={'',a,ab,b} and (k=5,6) of U3={'',a,b}, and (k=2,3) of Unul={'',00,a,a00} (keys differing only in trailing NUL bytes) and of Ulong (8-11 byte keys sharing a 7-byte prefix), values 10*stream+key-index and constant 5 (heap ties), stream kinds {whole FST, range().ge(''), search(AlwaysMatch), user Vec streamer} (all kind vectors for k<=3 quick / k<=4 thorough, a rotating vector above), four operations through raw/map/set OpBuilder (+FromIterator/Extend/op().add() forms), IndexedValue lists compared as sets; is_disjoint/is_subset/is_superset for all ordered pairs x stream kinds. non-trivial = tuples with k >= 2 and at least two non-empty streams".into();
+    p.rule = "every k-tuple (k=1..4) of subsets of U4={'',a,ab,b} and (k=5,6) of U3={'',a,b}, and (k=2,3) of Unul={'',00,a,a00} (keys differing only in trailing NUL bytes) and of Ulong (8-11 byte keys sharing a 7-byte prefix), values 10*stream+key-index and constant 5 (heap ties), stream kinds {whole FST, range().ge(''), search(AlwaysMatch), user Vec streamer} (all kind vectors for k<=3 quick / k<=4 thorough, a rotating vector above), four operations through raw/map/set OpBuilder (+FromIterator/Extend/op().add() forms), IndexedValue lists compared as sets; is_disjoint/is_subset/is_superset for all ordered pairs x stream kinds; finite family of 7..40, 64, 100, 257, 300 operand streams over a 6-key universe (4 layouts each). non-trivial = tuples with k >= 2 and at least two non-empty streams".into();
     p.assumptions = vec!["order inside an IndexedValue list is unspecified and is normalised before comparison".into()];
     let u4: Vec<Key> = vec![b"".to_vec(), b"a".to_vec(), b"ab".to_vec(), b"b".to_vec()];
     let u3: Vec<Key> = vec![b"".to_vec(), b"a".to_vec(), b"b".to_vec()];
@@ -411,6 +411,37 @@ pub fn plan(tier: Tier) -> Plan {
                         Ok(n) => { st.evals += n; st.transitions += n; st.count("mixed_operation_streams", n); }
                         Err(msg) => rep.violation(format!("mixed member {} kinds {:?}", i, kinds), msg, json!({"streams": srcs.iter().map(|s| kvs_json(&s.kvs)).collect::<Vec<_>>(), "kinds": kinds.iter().map(|k| format!("{:?}", k)).collect::<Vec<_>>()})),
                     }
+                }
+            }
+        }));
+    }
+    // many operands: k = 7..40, 64, 100, 257, 300 streams over a 6-key universe
+    // (stream index beyond one byte; heap with many entries and many ties)
+    for (ui, k) in (7usize..=40).chain([64, 100, 257, 300]).enumerate() {
+        p.units.push(unit("many-streams-(finite-family)", format!("{} streams", k), move |st, rep| {
+            let uni: Vec<Key> = vec![b"".to_vec(), b"a".to_vec(), b"ab".to_vec(), b"b".to_vec(), b"b\x00".to_vec(), vec![0xff; 9]];
+            for variant in 0..4usize {
+                // variant 0: stream i holds the keys of the bits of (i*37+11); 1: all streams equal;
+                // 2: only the last stream non-empty + first; 3: disjoint singletons cycling
+                let srcs: Vec<Src> = (0..k)
+                    .map(|i| {
+                        let mask: u64 = match variant {
+                            0 => ((i * 37 + 11) % 64) as u64,
+                            1 => 0b101101,
+                            2 => if i == 0 || i + 1 == k { 0b111111 } else { 0 },
+                            _ => 1 << (i % 6),
+                        };
+                        let keys = select(&uni, mask);
+                        make_src(values(if variant == 1 { 1 } else { 0 }, i, &keys, &uni)).unwrap()
+                    })
+                    .collect();
+                let refs: Vec<&Src> = srcs.iter().collect();
+                let kinds: Vec<Kind> = (0..k).map(|i| [Kind::Whole, Kind::RangeGe, Kind::SearchAlways, Kind::UserVec][(i + ui + variant) % 4]).collect();
+                st.states += 1;
+                st.nontrivial += 1;
+                match run_tuple(&refs, &kinds, k <= 40) {
+                    Ok(n) => { st.evals += n; st.transitions += n * k as u64; st.count("many_stream_operations", n); }
+                    Err(msg) => rep.violation(format!("{} streams variant {}", k, variant), msg, json!({"streams": srcs.iter().map(|s| kvs_json(&s.kvs)).collect::<Vec<_>>(), "kinds": kinds.iter().map(|k| format!("{:?}", k)).collect::<Vec<_>>()})),
                 }
             }
         }));
